@@ -261,6 +261,14 @@ def dataset_digest(data):
     return summarize(d)
 
 
+class _FakeParent:
+    name = "HostProgramMainProcess"
+    pid = 1
+
+    def is_alive(self):
+        return True
+
+
 class Outcome:
     __slots__ = (
         "status", "summary", "exc_class", "exc_msg", "exc_frames", "exc_is_lib", "exc_injected",
@@ -311,6 +319,7 @@ DEFAULT_CONFIG = {
     "callbacks": 1,
     "extra_kwargs": None,
     "settle": True,
+    "in_child": False,
 }
 
 
@@ -390,6 +399,13 @@ def run_entry(workload, config=None, decisions=None, cache=None, keep_result=Fal
     np.random.seed(int(cfg["np_seed"]) % (2**32))
     _pyrandom.seed(int(cfg["np_seed"]))
     result = None
+    import multiprocessing.process as _mpp
+
+    saved_parent = _mpp._parent_process
+    if cfg.get("in_child"):
+        # deployment: the host program calls the library from inside one of its own (non-daemonic)
+        # multiprocessing children, so multiprocessing.parent_process() is not None
+        _mpp._parent_process = _FakeParent()
     try:
         with seams.active(sim, backend=cfg["backend"]):
             # start every run from a settled progress state
@@ -428,6 +444,7 @@ def run_entry(workload, config=None, decisions=None, cache=None, keep_result=Fal
                 out.tasks_at_raise = sim.tasks_submitted
                 out.steps_at_raise = seams.PROGRESS_STEPS
     finally:
+        _mpp._parent_process = saved_parent
         for h in handles:
             progress.unregister(h)
         if cfg.get("override") is not None:
